@@ -581,6 +581,33 @@ example : Gen.Fn.llc_bind_pre none true = .error (.llcp 108) := by decide
 example : Gen.Fn.llc_dispatch_unknown (some 4) none = true := by decide
 example : Gen.Fn.llc_dispatch_unknown (some 4) (some 1) = false := by decide
 
+/-- **the PAX PDU `activate()` sends is the model's `sendPax`**: the regenerated statements 4-9 of `activate`
+decide which setter is called with which option, the regenerated setters compute the stored TLV values
+(`wks` is the value of the comprehension in statement 2, the model's sum over the registered SAPs below 15) -/
+theorem gen_sendPax (o : LlcOpts) :
+    let wks : Nat := 1 + ((o.saps.filter (· < 15)).map (fun s => 2 ^ s)).sum
+    let r := Gen.Fn.llc_activate_pax (wks : Int) o.miu o.lto o.lsc o.sec none none none none
+    (sendPax o).version = some (Gen.Fn.llc_pax_set_version r.1).toNat ∧
+    (sendPax o).wks = some (Gen.Fn.llc_pax_set_wks r.2.1).toNat ∧
+    (sendPax o).miux = r.2.2.1.map (fun v => (Gen.Fn.llc_pax_set_miu v).toNat) ∧
+    (sendPax o).lto = r.2.2.2.1.map (fun v => (Gen.Fn.llc_pax_set_lto v).toNat) ∧
+    (sendPax o).opt =
+      (let o0 : Option Nat := r.2.2.2.2.1.map (fun v => (Gen.Fn.llc_pax_set_lsc v none).toNat)
+       match r.2.2.2.2.2 with
+       | some d => some (Gen.Fn.llc_pax_set_dpc d (oi o0)).toNat
+       | none => o0) := by
+  intro wks r
+  have hr : r = ((1, 3), (wks : Int), (if o.miu ≠ 128 then some o.miu else none),
+      (if o.lto ≠ 100 then some o.lto else none), (if o.lsc ≠ 0 then some o.lsc else none),
+      (if o.sec then some 1 else none)) := activate_pax_bridge _ _ _ _ _
+  rw [hr]
+  refine ⟨gen_sendPax_version o, pax_set_wks_bridge o, ?_, ?_, ?_⟩
+  · rw [pax_set_miu_bridge]; split <;> rfl
+  · rw [pax_set_lto_bridge]; split <;> rfl
+  · rw [pax_set_opt_bridge]
+    by_cases hl : o.lsc = 0 <;> cases o.sec <;> simp [hl]
+
+
 /-! ## bind without an address / by service name (C17) -/
 
 /-- the first free address of a range found by the model lies in that range -/
